@@ -39,7 +39,7 @@ funsor.set_backend("numpy")
 
 TRACKED = [Tensor, Number, Variable, Binary, Unary, Reduce, Contraction, Subs]
 RECIPES = ["T_A", "T_Anew", "T_B", "N", "BIN_A", "RED_A"]
-STEPS = ["c:" + r for r in RECIPES] + ["drop_first", "drop_last", "gc", "pickle_last", "reinterp_last", "realloc_B"]
+STEPS = ["c:" + r for r in RECIPES] + ["drop_first", "drop_last", "gc", "pickle_last", "reinterp_last", "realloc_B", "analyse_last"]
 INTERPS = [reflect, lazy, eager]
 
 
@@ -55,7 +55,11 @@ class World:
         self.nconstruct = 0
 
     def new_array(self):
-        a = np.array([1.0, 2.0, 3.0])
+        # every other array is a strided (non-contiguous) view: the term must wrap the very object it was given
+        if self.ntok % 2 == 0:
+            a = np.array([1.0, 2.0, 3.0])
+        else:
+            a = np.array([1.0, 0.0, 2.0, 0.0, 3.0, 0.0])[::2]
         self.ntok += 1
         a_tok = self.ntok
         self.arr[a_tok] = weakref.ref(a)
@@ -262,6 +266,16 @@ def run_history(steps, interp_offset=0, baseline=None):
                     viol.append(("reinterpret_under_reflect_is_identity", "%s: reinterpret under reflect returned a different object for key %s" % (where, key), ("reinterpret", key[0])))
                 w.handles.append([h2, key])
                 del h, h2
+        elif st == "analyse_last":
+            # analyses that memoise per term (affine_inputs caches on the term itself): they must not keep the term alive
+            if w.handles:
+                from funsor.affine import affine_inputs, is_affine
+
+                h = w.handles[-1][0]
+                evals.append("analysis_does_not_retain")
+                affine_inputs(h)
+                is_affine(h)
+                del h
         else:
             raise KeyError(st)
         check_invariants(w, viol, evals, where, after_gc=(st == "gc"), baseline=baseline)
@@ -473,7 +487,7 @@ def warm_up():
     if _WARM:
         return
     for r in RECIPES:
-        run_history(["c:" + r, "pickle_last", "reinterp_last", "gc"])
+        run_history(["c:" + r, "pickle_last", "reinterp_last", "analyse_last", "gc"])
         run_history(["c:" + r, "c:" + r, "drop_first", "gc"], 1)
         run_history(["c:" + r, "c:" + r, "drop_first", "gc"], 2)
     for kind, n in (("dom", 6), ("op", 9), ("ty", 4)):
